@@ -1,6 +1,7 @@
 """titlecase — translates the data that Model/TitleCase.v rests on into coq/Model/Tables_titlecase.v:
   * SPECIAL_CONJUNCTIONS of should_capitalize_token              (harper-core/src/title_case.rs)
   * the length bound of `is_short_preposition`                   (`tok.span.len() <= N`)
+  * the guarded copy of a proper noun's canonical spelling       (is_case_variant / canonical apostrophe; 41fa706)
   * the case operations applied to output characters             (to_ascii_uppercase / to_ascii_lowercase:
     ASCII-only, one char -> one char; `to_uppercase()`/`to_lowercase()` on an output char would make
     the length theorem false and is reported as `tc_uses_unicode_case_on_output = true`)
@@ -79,7 +80,40 @@ def generate(repo):
     uni = bool(re.search(r"\.to_uppercase\(\)|\.to_lowercase\(\)|\.to_upper\(\)|\.to_lower\(\)", body))
     # the three writes into `output`
     writes = re.findall(r"output\[[^\]]*\]\s*=", body)
-    wr_canon = bool(re.search(r"for_each\(\|\(idx,\s*c\)\|\s*\*c\s*=\s*correct_caps\[idx\]\)", body))
+    # the copy of the canonical spelling: since 41fa706 guarded per character
+    #   .for_each(|(idx, c)| { let canonical = correct_caps[idx];
+    #        if is_case_variant(*c, canonical) || (canonical == '\'' && matches!(*c, '’' | '‘' | '＇')) { *c = canonical; } })
+    # (the index `correct_caps[idx]` is evaluated BEFORE the guard: the panic behaviour is that of the old code).
+    wr_canon_old = bool(re.search(r"for_each\(\|\(idx,\s*c\)\|\s*\*c\s*=\s*correct_caps\[idx\]\)", body))
+    m = re.search(r"for_each\(\|\(idx,\s*c\)\|\s*\{\s*let\s+canonical\s*=\s*correct_caps\[idx\]\s*;\s*"
+                  r"if\s+is_case_variant\(\*c,\s*canonical\)\s*\|\|\s*"
+                  r"\(\s*canonical\s*==\s*'(\\'|[^'\\])'\s*&&\s*matches!\(\s*\*c\s*,([^)]*)\)\s*\)\s*"
+                  r"\{\s*\*c\s*=\s*canonical\s*;\s*\}\s*\}\)", body)
+    if m:
+        guarded = True
+        apo_to = 39 if m.group(1) == "\\'" else ord(m.group(1))
+        alts = [a.strip() for a in m.group(2).split("|")]
+        apo_from = []
+        for a in alts:
+            mm = re.fullmatch(r"'([^'\\])'", a)
+            if not mm:
+                raise Shape("canonical copy: unexpected apostrophe alternative %r" % a)
+            apo_from.append(ord(mm.group(1)))
+        if wr_canon_old:
+            raise Shape("canonical copy: both the guarded and the unguarded shape are present")
+        # fn is_case_variant(a, b) = same to_lowercase AND same to_uppercase
+        cv = body_after(tc, r"fn\s+is_case_variant\s*\(\s*a:\s*char,\s*b:\s*char\s*\)\s*->\s*bool\s*")
+        cv_ok = bool(re.fullmatch(r"\s*a\.to_lowercase\(\)\.eq\(b\.to_lowercase\(\)\)\s*&&\s*"
+                                  r"a\.to_uppercase\(\)\.eq\(b\.to_uppercase\(\)\)\s*", cv))
+        if not cv_ok:
+            raise Shape("is_case_variant: shape not recognised: %r" % cv.strip())
+    elif wr_canon_old:
+        # the shape before 41fa706 (findings FC18a/FC18b): reported through the flags, the theorems then fail
+        guarded, cv_ok, apo_to, apo_from = False, False, 39, []
+    else:
+        raise Shape("canonical copy (for_each over the word's output slice): shape not recognised")
+    if len(re.findall(r"correct_caps\[", body)) != 1:
+        raise Shape("correct_caps is indexed at an unexpected number of sites")
     first_last = bool(re.search(r"should_capitalize_token\(word,\s*source,\s*dict\)\s*\|\|\s*index\s*==\s*0\s*\|\|\s*"
                                 r"word_likes\.peek\(\)\.is_none\(\)", body))
     # ---- TokenKind
@@ -131,7 +165,14 @@ def generate(repo):
            "Definition tc_ascii_lower_sites : nat := %d." % n_lo,
            "Definition tc_uses_unicode_case_on_output : bool := %s." % ("true" if uni else "false"),
            "Definition tc_output_index_writes : nat := %d." % len(writes),
-           "Definition tc_canonical_overwrite_present : bool := %s." % ("true" if wr_canon else "false"),
+           "(* the proper-noun block copies correct_caps[idx] over the output character c only when",
+           "   is_case_variant(c, canonical) || (canonical == tc_canonical_apostrophe_to && c in tc_canonical_apostrophe_from);",
+           "   is_case_variant(a, b) = a.to_lowercase().eq(b.to_lowercase()) && a.to_uppercase().eq(b.to_uppercase()) *)",
+           "Definition tc_canonical_copy_guarded : bool := %s." % ("true" if guarded else "false"),
+           "Definition tc_canonical_copy_unguarded_present : bool := %s." % ("true" if wr_canon_old else "false"),
+           "Definition tc_case_variant_is_lower_and_upper : bool := %s." % ("true" if cv_ok else "false"),
+           "Definition tc_canonical_apostrophe_to : N := %d%%N." % apo_to,
+           "Definition tc_canonical_apostrophe_from : list N := [%s]%%N." % "; ".join("%d" % x for x in apo_from),
            "Definition tc_first_last_forced : bool := %s." % ("true" if first_last else "false"), "",
            "(* enum TokenKind in declaration order: %s *)" % " ".join("%d=%s" % (i, n) for i, n in enumerate(KNOWN_KINDS)),
            "Definition tc_token_kind_count : nat := %d." % len(KNOWN_KINDS),
